@@ -83,6 +83,8 @@ type FrameSpec struct {
 	Props      []string
 	Allows     []string // field patterns that may be written on pre-existing objects
 	Denies     []string // if set: only writes matching these patterns (and not Allows) are violations
+	AllowGlobals []string // package-level variables whose reachable objects may be written (pkg.name patterns)
+	Thorough   bool     // only checked in the thorough tier
 	ResultFresh []string // link fields through which the result must reach only fresh objects
 	NoGlobals  bool
 	NoUnsync   bool     // every write to a pre-existing object must be synchronised (race frame)
@@ -249,6 +251,14 @@ func (cs *ContractSet) LoadFile(file string) error {
 						curFrame.Allows = append(curFrame.Allows, f)
 					}
 				}
+			case "allows-global":
+				for _, f := range strings.Split(rest, ",") {
+					if f = strings.TrimSpace(f); f != "" {
+						curFrame.AllowGlobals = append(curFrame.AllowGlobals, f)
+					}
+				}
+			case "tier":
+				curFrame.Thorough = strings.TrimSpace(rest) == "thorough"
 			case "denies":
 				for _, f := range strings.Split(rest, ",") {
 					if f = strings.TrimSpace(f); f != "" {
